@@ -1,0 +1,16 @@
+//go:build verif
+
+package converter
+
+/*
+Verification hook (build tag 'verif' only): named yield points in the request handlers. A harness may install
+a callback to observe/control the order in which concurrent requests pass these points. Without the build tag
+the function is a no-op (see zz_verifhooks_off.go).
+*/
+var VerifYield func(point string)
+
+func verifYield(point string) {
+	if VerifYield != nil {
+		VerifYield(point)
+	}
+}
